@@ -8,6 +8,7 @@ mod proto;
 mod frame;
 mod cmd;
 mod song;
+mod filter;
 mod tags;
 mod util;
 
@@ -33,6 +34,7 @@ const FAMILIES: &[Family] = &[
     Family { name: "frame", gen: frame::gen, exec: frame::exec },
     Family { name: "cmd", gen: cmd::gen, exec: cmd::exec },
     Family { name: "song", gen: song::gen, exec: song::exec },
+    Family { name: "filter", gen: filter::gen, exec: filter::exec },
 ];
 
 fn main() {
